@@ -540,6 +540,10 @@ class Canonicaliser:
         try:
             if cls is not None:
                 self.unroll_table_loops(fn, cls)
+            from .astutil import inline_local_procedures
+            n_ = inline_local_procedures(fn)
+            if n_:
+                self.stats["local_procedure_calls"] = self.stats.get("local_procedure_calls", 0) + n_
             fn.body = self.block(fn.body, modname, cls, fn)
             self.expr_inline(fn, modname, cls)
             self.simplify_function(fn, modname, cls)
